@@ -20,6 +20,14 @@ CHECKS = {
    technique='symbolic execution of the certifying glue (Matrix._solver, Matrix.solve, System.solve driver) with nondeterministic back-end stubs; per-path SMT validity of "normal return implies certificate"; IEEE extended reals for residual norms',
    text='For all matrices n<=2 (3 thorough), right-hand sides, tolerances, constraint patterns (enumerated masks, symbolic values), arbitrary vectors returned by the linear back end and arbitrary residual-norm sequences (finite/NaN/inf, K<=3 (4) iterations) a normal return implies: result finite, constrained entries exactly the prescribed values, free residual within the effective tolerance, at least miniter iterations, last norm finite and <= tol; otherwise a Matrix/Solver error is raised.  Linear solves are independent of the initial guess (exact back end given by its contract).',
    note='Declined: the numerical algorithms themselves (factorisations, Krylov iterations, line searches, time stepping, SciPy/MKL).  Stubs and norm models are listed in the evidence.  Driver counterexamples are reported only if reproduced through the public API with a real Newton system.'),
+ 'C10': dict(level='other', design='4/C10',
+   technique='symbolic execution of transformseq.Axis/DimAxis/IntAxis on z3 integers (all paths), SMT validity of the face/element index facts modulo a symbolic period; counterexamples replayed on the real classes with concrete integers',
+   text='ONLY the structured index bookkeeping is claimed: for all sizes, offsets, periods and indices (unbounded integers) both sides of interface t are adjacent elements sharing one face, the interface map is injective and onto the interior faces (all faces if periodic), boundaries are exactly the two end faces (none if periodic), refinement and slicing keep elements/faces in place, opposite() flips to the other side of the same face.  These 1-D facts tensorise to the structured-topology clauses of the property.',
+   note='Declined (DESIGN 4/C10): refine/trim/union/subset on general topologies, measures and fluxes (quadrature sums), level-set trimming, hierarchical/multipatch topologies - numeric geometry and object graphs with no integer kernel.  Assumes the axis representation invariant (stated in the evidence), which the same check proves to be preserved by refined/getitem.'),
+ 'C11': dict(level='other', design='4/C11',
+   technique='SMT (z3): Axis lookup arithmetic on symbolic integers; chain rewrites validated as equal affine maps on a symbolic point (translation validation of canonical/uppermost/promote); small structured lookups enumerated',
+   text='Axis.map/unmap round trip and exact acceptance set for all i, j, mod, index (unbounded).  For every chain of child/edge transforms of line, square, triangle, cube, tetrahedron, prism up to length 3 (4 thorough; 3-D length 2 in quick) the canonical, uppermost and promoted forms denote the same affine map for ALL points and keep from/to dimensions.  index_with_tail(transforms[i]+tail)=(i,tail) is enumerated on small structured meshes (auxiliary, labelled).',
+   note='Declined: locate() (floating-point Newton with tolerance), lookup through interned object identity for arbitrary construction routes, f_index/f_coords/opposite at symbolic points (planned with the function-level harness).'),
 }
 
 NOT_APPLICABLE = {
